@@ -1,69 +1,14 @@
 (* BuilderFacts.v — the SectionsBuilder / GraphBuilder cursor machine never panics and always
-   terminates (C03): for every list of reader blocks in which every list item starts with text
-   (a paragraph or heading), with a list, or is empty, and for every arena, `build_document`
+   terminates (C03): for EVERY list of reader blocks and for every arena, `build_document`
    returns `Ok` — none of its `expect`/`panic!` sites is reachable, and the fuel
    `fuel_for bs = 4 * size + 8` is enough for every input (the recursion of
-   process_blocks / process_section / section_block / block is well founded). *)
+   process_blocks / process_section / section_block / block is well founded).
+   (Before the repair of F-LEADPANIC the statement needed the hypothesis that no list item
+   starts with a code block, quote, table or rule: `section_block` panicked on those.) *)
 From IweV Require Import Str Ast RelPath Arena ArenaWF ArenaFacts.
 From Coq Require Import Lia.
 Local Open Scope string_scope.
 Local Open Scope list_scope.
-
-(* ---------- the input class ------------------------------------------------------------------ *)
-
-Definition lead_ok (it : list dblock) : bool :=
-  match it with
-  | (DCode _ _ _ | DQuote _ _ | DTable _ _ _ _ | DRule _) :: _ => false
-  | _ => true
-  end.
-
-(* every list item, at any depth, starts with text or a list (or is empty) *)
-Fixpoint item_leads_ok (b : dblock) {struct b} : bool :=
-  let fix go (l : list dblock) : bool := match l with [] => true | x :: r => item_leads_ok x && go r end in
-  let fix goi (l : list (list dblock)) : bool :=
-    match l with
-    | [] => true
-    | it :: r => lead_ok it && go it && goi r
-    end in
-  match b with
-  | DQuote _ bs => go bs
-  | DOList its | DBList its => goi its
-  | _ => true
-  end.
-
-Definition items_ok (its : list (list dblock)) : Prop :=
-  Forall (fun it => lead_ok it = true /\ Forall (fun b => item_leads_ok b = true) it) its.
-
-Lemma leads_go l :
-  (fix go (l : list dblock) : bool := match l with [] => true | x :: r => item_leads_ok x && go r end) l = true
-  <-> Forall (fun b => item_leads_ok b = true) l.
-Proof.
-  induction l as [|x l IH]; [split; [constructor | reflexivity]|].
-  rewrite Bool.andb_true_iff, IH. split.
-  - intros [? ?]. now constructor.
-  - intros H. inversion H; subst. auto.
-Qed.
-
-Lemma leads_goi its :
-  (fix goi (l : list (list dblock)) : bool :=
-     match l with
-     | [] => true
-     | it :: r => lead_ok it &&
-         (fix go (l : list dblock) : bool := match l with [] => true | x :: r => item_leads_ok x && go r end) it && goi r
-     end) its = true <-> items_ok its.
-Proof.
-  unfold items_ok. induction its as [|it its IH]; [split; [constructor | reflexivity]|].
-  rewrite !Bool.andb_true_iff, IH, leads_go. split.
-  - intros [[? ?] ?]. constructor; auto.
-  - intros H. inversion H as [|? ? [? ?] ?]; subst. auto.
-Qed.
-
-Lemma leads_blist its : item_leads_ok (DBList its) = true <-> items_ok its.
-Proof. cbn [item_leads_ok]. apply leads_goi. Qed.
-Lemma leads_olist its : item_leads_ok (DOList its) = true <-> items_ok its.
-Proof. cbn [item_leads_ok]. apply leads_goi. Qed.
-Lemma leads_quote lr bs : item_leads_ok (DQuote lr bs) = true <-> Forall (fun b => item_leads_ok b = true) bs.
-Proof. cbn [item_leads_ok]. apply leads_go. Qed.
 
 (* ---------- sizes ----------------------------------------------------------------------------- *)
 
@@ -300,10 +245,16 @@ Section Main.
     match bs with
     | [] => Ok st
     | h :: body =>
-        do st <- section_block dir f h st;
-        let id := b_cur st in
-        do st <- process_blocks dir f body st;
-        Ok (set_id st id)
+        if starts_with_header bs then
+          do st <- section_block dir f h st;
+          let id := b_cur st in
+          do st <- process_blocks dir f body st;
+          Ok (set_id st id)
+        else
+          do st <- add_node st (KSection []);
+          let id := b_cur st in
+          do st <- process_blocks dir f bs st;
+          Ok (set_id st id)
     end.
   Proof. reflexivity. Qed.
 
@@ -314,7 +265,7 @@ Section Main.
     | DHeader lr _ l => do st <- add_node st (KSection (to_ginlines dir l)); Ok (set_lines_range st lr)
     | DBList items | DOList items =>
         fold_left (fun acc it => do s <- acc; process_section dir f it s) items (Ok st)
-    | _ => Panic "section block panic"
+    | _ => Panic "section block panic"   (* not reachable from process_section any more *)
     end.
   Proof. reflexivity. Qed.
 
@@ -357,51 +308,54 @@ Section Main.
   Proof. reflexivity. Qed.
 
   Definition block_total n :=
-    forall f b st, dblock_size b <= n -> 4 * n + 1 <= f -> item_leads_ok b = true -> is_header b = false ->
+    forall f b st, dblock_size b <= n -> 4 * n + 1 <= f -> is_header b = false ->
       J st -> exists st', block dir f b st = Ok st' /\ ext (b_arena st) (b_arena st') /\ J st'.
 
   Definition sblock_total n :=
-    forall f h st, dblock_size h <= n -> 4 * n + 1 <= f -> item_leads_ok h = true ->
+    forall f h st, dblock_size h <= n -> 4 * n + 1 <= f ->
       (text_lead h = true \/ list_lead h = true) -> pre_item [h] st ->
       exists st', section_block dir f h st = Ok st' /\ ext (b_arena st) (b_arena st') /\ Q st'.
 
+  (* a section that starts with text (a heading, or the text of an item) *)
+  Definition hsection_total n :=
+    forall f h body st, dblocks_size (h :: body) <= n -> 4 * n + 2 <= f -> text_lead h = true -> J st ->
+      exists st', process_section dir f (h :: body) st = Ok st' /\ ext (b_arena st) (b_arena st') /\ Q st'.
+
+  (* any list item *)
   Definition section_total n :=
-    forall f it st, dblocks_size it <= n -> 4 * n + 2 <= f ->
-      Forall (fun b => item_leads_ok b = true) it -> lead_ok it = true -> pre_item it st ->
+    forall f it st, dblocks_size it <= n -> 4 * n + 5 <= f -> pre_item it st ->
       exists st', process_section dir f it st = Ok st' /\ ext (b_arena st) (b_arena st') /\
                   (it = [] -> st' = st) /\ (it <> [] -> Q st').
 
   Definition sections_total n :=
-    forall f L bs st, dblocks_size bs <= n -> 4 * n + 3 <= f ->
-      Forall (fun b => item_leads_ok b = true) bs -> headed bs -> J st ->
+    forall f L bs st, dblocks_size bs <= n -> 4 * n + 3 <= f -> headed bs -> J st ->
       exists st', process_sections dir f L bs st = Ok st' /\ ext (b_arena st) (b_arena st').
 
   Definition blocks_total n :=
-    forall f bs st, dblocks_size bs <= n -> 4 * n + 4 <= f ->
-      Forall (fun b => item_leads_ok b = true) bs -> Qb st ->
+    forall f bs st, dblocks_size bs <= n -> 4 * n + 4 <= f -> Qb st ->
       exists st', process_blocks dir f bs st = Ok st' /\ ext (b_arena st) (b_arena st').
 
   (* items of a list, processed one after the other from a container state *)
   Lemma items_fold n f its st :
-    section_total n -> items_ok its -> (forall it, In it its -> dblocks_size it <= n) -> 4 * n + 2 <= f ->
+    section_total n -> (forall it, In it its -> dblocks_size it <= n) -> (its <> [] -> 4 * n + 5 <= f) ->
     Q st ->
     exists st', fold_left (fun acc it => do s <- acc; process_section dir f it s) its (Ok st) = Ok st' /\
                 ext (b_arena st) (b_arena st') /\ Q st'.
   Proof.
-    intros HS Hok Hsz Hf HQ.
+    intros HS Hsz Hf HQ.
     apply (fold_steps (fun s it => process_section dir f it s) Q its st HQ).
     intros it Hin s Hs.
-    unfold items_ok in Hok. rewrite Forall_forall in Hok. destruct (Hok it Hin) as [Hl Hb].
+    assert (Hne : its <> []) by (intros ->; contradiction).
     assert (Hpre : pre_item it s).
     { destruct it as [|h r]; [exact I|]. cbn [pre_item]. destruct (text_lead h); [now apply Q_J | exact Hs]. }
-    destruct (HS f it s (Hsz it Hin) Hf Hb Hl Hpre) as (s' & H1 & E1 & Hnil & Hcons).
+    destruct (HS f it s (Hsz it Hin) (Hf Hne) Hpre) as (s' & H1 & E1 & Hnil & Hcons).
     exists s'. split; [exact H1|]. split; [exact E1|].
     destruct it as [|h r]; [rewrite (Hnil eq_refl); exact Hs | apply Hcons; discriminate].
   Qed.
 
   Lemma step_block n : (forall m, m < n -> section_total m /\ blocks_total m) -> block_total n.
   Proof.
-    intros IH f b st Hsz Hf Hok Hnh HJ.
+    intros IH f b st Hsz Hf Hnh HJ.
     destruct f as [|f]; [lia|]. rewrite block_S.
     destruct b as [lr l|lr lang text|lr bs|its|its|lr lv l|lr|lr h al rows]; try discriminate.
     - (* paragraph: reference or leaf *)
@@ -425,7 +379,7 @@ Section Main.
       destruct (IH (dblocks_size bs) ltac:(lia)) as [_ HB].
       assert (HQ : Qb (B (b_arena st1) (b_cur st1) true [])).
       { exists KQuote. auto. }
-      destruct (HB f bs _ (le_n _) ltac:(lia) (proj1 (leads_quote lr bs) Hok) HQ) as (inner & H2 & E2).
+      destruct (HB f bs _ (le_n _) ltac:(lia) HQ) as (inner & H2 & E2).
       rewrite H2. cbn [bind]. eexists. split; [reflexivity|]. cbn [b_arena] in *.
       split; [eapply ext_trans; eauto|].
       exists KQuote. cbn [b_arena b_cur b_insert].
@@ -439,9 +393,9 @@ Section Main.
       destruct (IH n' ltac:(destruct its; cbn [items_size] in *; lia)) as [HS _].
       assert (HQ : Q (set_insert st1 true)).
       { unfold set_insert. apply (Q_at _ _ _ _ KOList); auto. }
-      destruct (items_fold n' f its (set_insert st1 true) HS (proj1 (leads_olist its) Hok)) as (st2 & H2 & E2 & Q2); auto.
+      destruct (items_fold n' f its (set_insert st1 true) HS) as (st2 & H2 & E2 & Q2); auto.
       { intros it Hin. pose proof (items_size_in it its Hin). unfold n'. lia. }
-      { unfold n'. destruct its; cbn [items_size] in *; lia. }
+      { unfold n'. destruct its; [congruence | cbn [items_size] in *; lia]. }
       rewrite H2. cbn [bind]. eexists. split; [reflexivity|].
       cbn [set_insert set_id b_arena b_cur b_insert b_map] in *.
       split; [eapply ext_trans; eauto|].
@@ -456,9 +410,9 @@ Section Main.
       destruct (IH n' ltac:(destruct its; cbn [items_size] in *; lia)) as [HS _].
       assert (HQ : Q (set_insert st1 true)).
       { unfold set_insert. apply (Q_at _ _ _ _ KBList); auto. }
-      destruct (items_fold n' f its (set_insert st1 true) HS (proj1 (leads_blist its) Hok)) as (st2 & H2 & E2 & Q2); auto.
+      destruct (items_fold n' f its (set_insert st1 true) HS) as (st2 & H2 & E2 & Q2); auto.
       { intros it Hin. pose proof (items_size_in it its Hin). unfold n'. lia. }
-      { unfold n'. destruct its; cbn [items_size] in *; lia. }
+      { unfold n'. destruct its; [congruence | cbn [items_size] in *; lia]. }
       rewrite H2. cbn [bind]. eexists. split; [reflexivity|].
       cbn [set_insert set_id b_arena b_cur b_insert b_map] in *.
       split; [eapply ext_trans; eauto|].
@@ -479,7 +433,7 @@ Section Main.
 
   Lemma step_sblock n : (forall m, m < n -> section_total m) -> sblock_total n.
   Proof.
-    intros IH f h st Hsz Hf Hok Hlead Hpre.
+    intros IH f h st Hsz Hf Hlead Hpre.
     destruct f as [|f]; [lia|]. rewrite section_block_S.
     destruct h as [lr l|lr lang text|lr bs|its|its|lr lv l|lr|lr hh al rows];
       try (destruct Hlead as [Hx|Hx]; discriminate).
@@ -490,16 +444,16 @@ Section Main.
     - cbn [pre_item text_lead] in Hpre. rewrite size_olist in Hsz.
       set (n' := items_size its - 1).
       assert (HS : section_total n') by (apply IH; destruct its; cbn [items_size] in *; lia).
-      destruct (items_fold n' f its st HS (proj1 (leads_olist its) Hok)) as (st2 & H2 & E2 & Q2); auto.
+      destruct (items_fold n' f its st HS) as (st2 & H2 & E2 & Q2); auto.
       { intros it Hin. pose proof (items_size_in it its Hin). unfold n'. lia. }
-      { unfold n'. destruct its; cbn [items_size] in *; lia. }
+      { unfold n'. destruct its; [congruence | cbn [items_size] in *; lia]. }
       exists st2. auto.
     - cbn [pre_item text_lead] in Hpre. rewrite size_blist in Hsz.
       set (n' := items_size its - 1).
       assert (HS : section_total n') by (apply IH; destruct its; cbn [items_size] in *; lia).
-      destruct (items_fold n' f its st HS (proj1 (leads_blist its) Hok)) as (st2 & H2 & E2 & Q2); auto.
+      destruct (items_fold n' f its st HS) as (st2 & H2 & E2 & Q2); auto.
       { intros it Hin. pose proof (items_size_in it its Hin). unfold n'. lia. }
-      { unfold n'. destruct its; cbn [items_size] in *; lia. }
+      { unfold n'. destruct its; [congruence | cbn [items_size] in *; lia]. }
       exists st2. auto.
     - cbn [pre_item text_lead] in Hpre.
       destruct (add_node_J st (KSection (to_ginlines dir l)) Hpre eq_refl eq_refl) as (st' & H & E & Hc & Hi & Hk & _).
@@ -507,67 +461,118 @@ Section Main.
       unfold set_lines_range. destruct st' as [a' c' i' m']. cbn in *. apply (Q_at _ _ _ _ (KSection (to_ginlines dir l))); auto.
   Qed.
 
-  Lemma lead_cases h r : lead_ok (h :: r) = true -> text_lead h = true \/ list_lead h = true.
-  Proof. destruct h; cbn; auto; discriminate. Qed.
+  Lemma text_lead_starts h body : text_lead h = true -> starts_with_header (h :: body) = true.
+  Proof. destruct h; cbn; congruence. Qed.
 
-  Lemma step_section n : sblock_total n -> (forall m, m < n -> blocks_total m) -> section_total n.
+  Lemma step_hsection n : sblock_total n -> (forall m, m < n -> blocks_total m) -> hsection_total n.
   Proof.
-    intros HSB IH f it st Hsz Hf Hok Hlead Hpre.
+    intros HSB IH f h body st Hsz Hf Htl HJ.
+    destruct f as [|f]; [lia|]. rewrite process_section_S, (text_lead_starts h body Htl).
+    rewrite dblocks_size_cons in Hsz.
+    pose proof (dblock_size_pos h) as Hpos.
+    destruct (HSB f h st ltac:(lia) ltac:(lia) (or_introl Htl)) as (st1 & H1 & E1 & Q1).
+    { cbn [pre_item]. now rewrite Htl. }
+    rewrite H1. cbn [bind].
+    destruct (IH (dblocks_size body) ltac:(lia) f body st1 (le_n _) ltac:(lia) (Q_Qb _ Q1)) as (st2 & H2 & E2).
+    rewrite H2. cbn [bind]. eexists. split; [reflexivity|]. cbn [set_id b_arena].
+    split; [eapply ext_trans; eauto|].
+    destruct Q1 as (k & Hk & Hins & Hdk).
+    (* the cursor goes back to the section node: its kind is unchanged in the extended arena *)
+    assert (Hk2 : kind_at (b_arena st2) (b_cur st1) = Some k).
+    { destruct E2 as [_ K2]. rewrite K2; [exact Hk | now apply kind_at_lt in Hk]. }
+    unfold set_id. now apply (Q_at _ _ _ _ k).
+  Qed.
+
+  (* an item that consists of one list: merged into the enclosing list *)
+  Lemma section_list_alone n f h st :
+    sblock_total n -> list_lead h = true -> dblock_size h <= n -> 4 * n + 5 <= f -> Q st ->
+    exists st', process_section dir f [h] st = Ok st' /\ ext (b_arena st) (b_arena st') /\ Q st'.
+  Proof.
+    intros HSB Hl Hsz Hf HQ.
     destruct f as [|f]; [lia|]. rewrite process_section_S.
+    assert (Hs : starts_with_header [h] = true) by (destruct h; cbn in *; congruence).
+    rewrite Hs.
+    destruct (HSB f h st Hsz ltac:(lia) (or_intror Hl)) as (st1 & H1 & E1 & Q1).
+    { cbn [pre_item]. destruct h; try discriminate; exact HQ. }
+    rewrite H1. cbn [bind].
+    destruct f as [|f]; [lia|]. rewrite process_blocks_S. cbn [bind].
+    eexists. split; [reflexivity|]. split; [exact E1|].
+    destruct Q1 as (k & Hk & Hins & Hdk). unfold set_id. now apply (Q_at _ _ _ _ k).
+  Qed.
+
+  (* an item without text: a section without text over all its blocks *)
+  Lemma section_no_text n f it st :
+    blocks_total n -> it <> [] -> starts_with_header it = false -> dblocks_size it <= n -> 4 * n + 5 <= f -> J st ->
+    exists st', process_section dir f it st = Ok st' /\ ext (b_arena st) (b_arena st') /\ Q st'.
+  Proof.
+    intros HB Hne Hs Hsz Hf HJ.
+    destruct f as [|f]; [lia|]. rewrite process_section_S.
+    destruct it as [|h body]; [congruence|]. rewrite Hs.
+    destruct (add_node_J st (KSection []) HJ eq_refl eq_refl) as (st1 & H1 & E1 & Hc & Hi & Hk & _).
+    rewrite H1. cbn [bind].
+    assert (Q1 : Q st1) by (destruct st1 as [a1 c1 i1 m1]; cbn in *; apply (Q_at _ _ _ _ (KSection [])); auto).
+    destruct (HB f (h :: body) st1 Hsz ltac:(lia) (Q_Qb _ Q1)) as (st2 & H2 & E2).
+    rewrite H2. cbn [bind]. eexists. split; [reflexivity|]. cbn [set_id b_arena].
+    split; [eapply ext_trans; eauto|].
+    assert (Hk2 : kind_at (b_arena st2) (b_cur st1) = Some (KSection [])).
+    { destruct E2 as [_ K2]. rewrite K2; [exact Hk | now apply kind_at_lt in Hk]. }
+    unfold set_id. now apply (Q_at _ _ _ _ (KSection [])).
+  Qed.
+
+  Lemma step_section n : sblock_total n -> hsection_total n -> blocks_total n -> section_total n.
+  Proof.
+    intros HSB HH HB f it st Hsz Hf Hpre.
     destruct it as [|h body].
-    - exists st. repeat split; auto using ext_refl. intros H; now elim H.
-    - inversion Hok as [|? ? Hh Hb]; subst. rewrite dblocks_size_cons in Hsz.
-      pose proof (dblock_size_pos h) as Hpos.
-      destruct (HSB f h st ltac:(lia) ltac:(lia) Hh (lead_cases h body Hlead)) as (st1 & H1 & E1 & Q1).
-      { cbn [pre_item] in *. exact Hpre. }
-      rewrite H1. cbn [bind].
-      destruct (IH (dblocks_size body) ltac:(lia) f body st1 (le_n _) ltac:(lia) Hb (Q_Qb _ Q1)) as (st2 & H2 & E2).
-      rewrite H2. cbn [bind]. eexists. split; [reflexivity|]. cbn [set_id b_arena].
-      split; [eapply ext_trans; eauto|]. split; [discriminate|]. intros _.
-      destruct Q1 as (k & Hk & Hins & Hdk).
-      (* the cursor goes back to the section node: its kind is unchanged in the extended arena *)
-      assert (Hk2 : kind_at (b_arena st2) (b_cur st1) = Some k).
-      { destruct E2 as [_ K2]. rewrite K2; [exact Hk | now apply kind_at_lt in Hk]. }
-      unfold set_id. now apply (Q_at _ _ _ _ k).
+    - destruct f as [|f]; [lia|]. rewrite process_section_S.
+      exists st. repeat split; auto using ext_refl. intros H; now elim H.
+    - cbn [pre_item] in Hpre.
+      assert (Hgoal : exists st', process_section dir f (h :: body) st = Ok st' /\ ext (b_arena st) (b_arena st') /\ Q st').
+      { destruct (text_lead h) eqn:Htl.
+        - apply (HH f h body st Hsz ltac:(lia) Htl Hpre).
+        - destruct (starts_with_header (h :: body)) eqn:Hs.
+          + (* one list and nothing else *)
+            assert (body = [] /\ list_lead h = true) as [-> Hl].
+            { destruct h; cbn in Htl, Hs; try discriminate; destruct body; try discriminate; auto. }
+            apply (section_list_alone n f h st HSB Hl); auto.
+            rewrite dblocks_size_cons in Hsz. cbn [dblocks_size fold_right] in Hsz. lia.
+          + apply (section_no_text n f (h :: body) st HB); auto; [discriminate | now apply Q_J]. }
+      destruct Hgoal as (st' & H1 & E1 & Q1). exists st'.
+      split; [exact H1|]. split; [exact E1|]. split; [discriminate | intros _; exact Q1].
   Qed.
 
   Lemma step_sections n :
-    section_total n -> (forall m, m < n -> sections_total m) -> sections_total n.
+    hsection_total n -> (forall m, m < n -> sections_total m) -> sections_total n.
   Proof.
-    intros HS IH f L bs st Hsz Hf Hok Hhd HJ.
+    intros HS IH f L bs st Hsz Hf Hhd HJ.
     destruct f as [|f]; [lia|]. rewrite process_sections_S.
     destruct bs as [|h r]; [exists st; split; [reflexivity | apply ext_refl]|].
     cbv zeta.
     destruct (span_section L r) as [body rest] eqn:Es.
     destruct (span_section_spec L r body rest Es) as [Hr Hrest]. subst r.
-    inversion Hok as [|? ? Hh Hb]; subst. apply Forall_app in Hb as [Hbody Hrst].
     rewrite dblocks_size_cons, dblocks_size_app in Hsz.
     pose proof (dblock_size_pos h) as Hpos.
     cbn [headed] in Hhd.
     assert (Htl : text_lead h = true) by (destruct h; try discriminate; reflexivity).
-    destruct (HS f (h :: body) st) as (st1 & H1 & E1 & _ & Q1).
+    destruct (HS f h body st) as (st1 & H1 & E1 & Q1); auto.
     { rewrite dblocks_size_cons. lia. }
     { lia. }
-    { constructor; assumption. }
-    { destruct h; try discriminate; reflexivity. }
-    { cbn [pre_item]. now rewrite Htl. }
     rewrite H1. cbn [bind].
-    destruct (IH (dblocks_size rest) ltac:(lia) f L rest st1 (le_n _) ltac:(lia) Hrst Hrest) as (st2 & H2 & E2).
-    { apply Q_J. apply Q1. discriminate. }
+    destruct (IH (dblocks_size rest) ltac:(lia) f L rest st1 (le_n _) ltac:(lia) Hrest) as (st2 & H2 & E2).
+    { apply Q_J. exact Q1. }
     exists st2. split; [exact H2 | eapply ext_trans; eauto].
   Qed.
 
   Lemma step_blocks n : block_total n -> sections_total n -> blocks_total n.
   Proof.
-    intros HB HSs f bs st Hsz Hf Hok HQ.
+    intros HB HSs f bs st Hsz Hf HQ.
     destruct f as [|f]; [lia|]. rewrite process_blocks_S.
     destruct bs as [|b0 bs0]; [exists st; split; [reflexivity | apply ext_refl]|].
     cbv zeta.
     destruct (span_pre (b0 :: bs0)) as [pre rest] eqn:Es.
     destruct (span_pre_spec _ pre rest Es) as (Hbs & Hpre & Hrest).
-    rewrite Hbs in Hok, Hsz. apply Forall_app in Hok as [Hokp Hokr]. rewrite dblocks_size_app in Hsz.
+    rewrite Hbs in Hsz. rewrite dblocks_size_app in Hsz.
     destruct (fold_steps (fun s b => block dir f b s) J pre (set_insert st true) (Qb_J_true st HQ)) as (st1 & H1 & E1 & J1).
-    { intros b Hin s Hs. rewrite Forall_forall in Hokp, Hpre.
+    { intros b Hin s Hs. rewrite Forall_forall in Hpre.
       apply (HB f b s); auto.
       - assert (dblock_size b <= dblocks_size pre).
         { clear - Hin. induction pre as [|x l IHl]; [contradiction|]. rewrite dblocks_size_cons.
@@ -578,30 +583,34 @@ Section Main.
     destruct rest as [|h r]; [exists st1; split; [reflexivity | exact E1]|].
     cbn [headed] in Hrest.
     destruct (header_level h) as [L|] eqn:EL; [|exists st1; split; [reflexivity | exact E1]].
-    destruct (HSs f L (h :: r) st1 ltac:(lia) ltac:(lia) Hokr Hrest J1) as (st2 & H2 & E2).
+    destruct (HSs f L (h :: r) st1 ltac:(lia) ltac:(lia) Hrest J1) as (st2 & H2 & E2).
     exists st2. split; [exact H2 | eapply ext_trans; eauto].
   Qed.
 
-  (* all five, for every size *)
+  (* all six, for every size *)
   Theorem builder_total n :
-    block_total n /\ sblock_total n /\ section_total n /\ sections_total n /\ blocks_total n.
+    block_total n /\ sblock_total n /\ hsection_total n /\ sections_total n /\ blocks_total n /\ section_total n.
   Proof.
     induction n as [n IH] using lt_wf_ind.
-    assert (HB : block_total n) by (apply step_block; intros m Hm; destruct (IH m Hm) as (_ & _ & ? & _ & ?); auto).
-    assert (HSB : sblock_total n) by (apply step_sblock; intros m Hm; now destruct (IH m Hm) as (_ & _ & ? & _)).
-    assert (HS : section_total n) by (apply step_section; [exact HSB | intros m Hm; now destruct (IH m Hm) as (_ & _ & _ & _ & ?)]).
-    assert (HSs : sections_total n) by (apply step_sections; [exact HS | intros m Hm; now destruct (IH m Hm) as (_ & _ & _ & ? & _)]).
-    repeat split; auto. now apply step_blocks.
+    assert (HB : block_total n)
+      by (apply step_block; intros m Hm; destruct (IH m Hm) as (_ & _ & _ & _ & ? & ?); auto).
+    assert (HSB : sblock_total n)
+      by (apply step_sblock; intros m Hm; now destruct (IH m Hm) as (_ & _ & _ & _ & _ & ?)).
+    assert (HH : hsection_total n)
+      by (apply step_hsection; [exact HSB | intros m Hm; now destruct (IH m Hm) as (_ & _ & _ & _ & ? & _)]).
+    assert (HSs : sections_total n)
+      by (apply step_sections; [exact HH | intros m Hm; now destruct (IH m Hm) as (_ & _ & _ & ? & _)]).
+    assert (HBs : blocks_total n) by now apply step_blocks.
+    repeat split; auto. now apply step_section.
   Qed.
 End Main.
 
-(* Graph::build_key + SectionsBuilder::new on any arena: no panic, enough fuel *)
+(* Graph::build_key + SectionsBuilder::new on any arena and ANY block list: no panic, enough fuel *)
 Theorem build_document_total (a : arena) (key : string) (bs : list dblock) :
-  Forall (fun b => item_leads_ok b = true) bs ->
   exists st, build_document a key bs = Ok st /\ ext (a ++ [GN (KDocument key) None None None]) (b_arena st).
 Proof.
-  intros Hok. unfold build_document, fuel_for.
-  destruct (builder_total (key_parent key) (dblocks_size bs)) as (_ & _ & _ & _ & HB).
+  unfold build_document, fuel_for.
+  destruct (builder_total (key_parent key) (dblocks_size bs)) as (_ & _ & _ & _ & HB & _).
   apply HB; auto; [lia|].
   exists (KDocument key). cbn [build_key b_arena b_cur]. split; [|reflexivity].
   unfold kind_at. now rewrite get_app_new.
@@ -610,35 +619,32 @@ Qed.
 (* ---------- lifted to the library operations ------------------------------------------------- *)
 From IweV Require Import Text Project Library.
 
-Definition note_ok (n : string * option string * list dblock) : Prop :=
-  Forall (fun b => item_leads_ok b = true) (snd n).
-
-Theorem from_blocks_total (g : graph) key meta bs :
-  Forall (fun b => item_leads_ok b = true) bs -> exists g', from_blocks g key meta bs = Ok g'.
+Theorem from_blocks_total (g : graph) key meta bs : exists g', from_blocks g key meta bs = Ok g'.
 Proof.
-  intros Hok. unfold from_blocks, build_note.
-  destruct (build_document_total (gr_arena g) key bs Hok) as (st & H & _).
+  unfold from_blocks, build_note.
+  destruct (build_document_total (gr_arena g) key bs) as (st & H & _).
   rewrite H. cbn [bind]. eexists. reflexivity.
 Qed.
 
 (* Graph::import: every note of the library is built, whatever the library *)
-Theorem import_total (notes : list (string * option string * list dblock)) :
-  Forall note_ok notes -> exists g, import notes = Ok g.
+Theorem import_total (notes : list (string * option string * list dblock)) : exists g, import notes = Ok g.
 Proof.
-  intros Hok. unfold import.
+  unfold import.
   assert (H : forall g0, exists g1,
             fold_left (fun acc n => do g <- acc; let '(name, meta, bs) := n in
                                     build_note g (key_from_file_name name) meta bs) notes (Ok g0) = Ok g1).
-  { induction Hok as [|[[name meta] bs] l Hn _ IH]; intros g0; cbn [fold_left].
+  { induction notes as [|[[name meta] bs] l IH]; intros g0; cbn [fold_left].
     - eexists. reflexivity.
     - cbn [bind]. unfold build_note at 2.
-      destruct (build_document_total (gr_arena g0) (key_from_file_name name) bs Hn) as (st & H & _).
+      destruct (build_document_total (gr_arena g0) (key_from_file_name name) bs) as (st & H & _).
       rewrite H. cbn [bind]. apply IH. }
   destruct (H empty_graph) as (g1 & H1). rewrite H1. cbn [bind]. eexists. reflexivity.
 Qed.
 
-(* the class excluded by the hypothesis is real: an item that starts with a quote panics *)
-Theorem build_document_refuted :
-  exists bs, build_document [] "n" bs = Panic "section block panic" /\
-             bs = [DBList [[DQuote (0, 1) [DPara (0, 1) [Str "q"]]]]].
-Proof. eexists. split; [|reflexivity]. vm_compute. reflexivity. Qed.
+(* the class the hypothesis used to exclude is built like any other: an item that starts with a
+   quote becomes a section without text over the quote *)
+Example build_document_lead_quote :
+  option_map (fun st => map g_kind (b_arena st))
+    (match build_document [] "n" [DBList [[DQuote (0, 1) [DPara (0, 1) [Str "q"]]]]] with Ok st => Some st | Panic _ => None end)
+  = Some [KDocument "n"; KBList; KSection []; KQuote; KLeaf [Str "q"]].
+Proof. vm_compute. reflexivity. Qed.
